@@ -23,6 +23,8 @@ func (l *list) Insert(id interface{}, deadline time.Time) {
 }
 
 func (l *list) Reset() {
+	l.mtx.Lock()
+	defer l.mtx.Unlock()
 	l.tree = skiplist.New()
 }
 func (l *list) Delete(id interface{}, deadline time.Time) bool {
@@ -87,9 +89,11 @@ func (l *list) Expire(now time.Time) []interface{} {
 	first := elt
 	for elt != nil && elt.GetValue().(*bucket).deadline.Before(now) {
 		set := elt.GetValue().(*bucket)
+		set.mtx.Lock()
 		for _, v := range set.data {
 			out = append(out, v.value)
 		}
+		set.mtx.Unlock()
 		deleted = append(deleted, set.deadline)
 		elt = l.tree.Next(elt)
 		if elt == first {
